@@ -4,14 +4,10 @@ use std::fs::File;
 use std::io::BufRead;
 use std::io::BufReader;
 use std::ops::Add;
-use std::ops::Index;
 use std::path::Path;
-use std::sync::LazyLock;
-use regex::Captures;
 use regex::Error;
 use regex::Regex;
 
-use crate::util::error_exit;
 
 #[derive(Clone, Debug)]
 pub struct DockerignoreFilter {
@@ -72,15 +68,10 @@ pub fn matches_dockerignore_filter(
 
     let file_name = file_name.to_string().replace("\\", "/").replace("//", "/");
 
+    // the last matching line decides; a line starting with ! re-includes
     for dockerignore_filter in dockerignore_filters {
-        let is_match = dockerignore_filter.regex.is_match(&file_name);
-
-        if is_match && dockerignore_filter.negate {
-            return false;
-        }
-
-        if is_match {
-            matched = true;
+        if dockerignore_filter.regex.is_match(&file_name) {
+            matched = !dockerignore_filter.negate;
         }
     }
 
@@ -129,7 +120,7 @@ fn convert_dockerignore_pattern(
 
     let mut negate = false;
     if pattern.starts_with("!") {
-        pattern = pattern.replace("!", "");
+        pattern = pattern[1..].to_string();
         negate = true;
     }
 
@@ -141,26 +132,29 @@ fn convert_dockerignore_pattern(
     }
 }
 
-static DOCKER_CONVERT_REPLACE_REGEX: LazyLock<Regex> = LazyLock::new(|| {
-    Regex::new("(\\*\\*|\\?|\\.|\\*)").unwrap()
-});
 
 fn convert_dockerignore_glob(glob: &str, file_path: &Path) -> Result<Regex, Error> {
-    let mut pattern = DOCKER_CONVERT_REPLACE_REGEX
-        .replace_all(glob, |c: &Captures| {
-            match c.index(0) {
-                "**" => ".*",
-                "." => "\\.",
-                "*" => "[^/]*",
-                "?" => "[^/]",
-                _ => error_exit(".dockerignore", "Error parsing pattern"),
+    // patterns are rooted at the directory of the .dockerignore file; `*` and `?` stay within
+    // one path component, `**` spans components; a matching directory hides what is below it
+    let glob = glob.trim().trim_matches(|c| c == '/' || c == '\\');
+    let chars: Vec<char> = glob.chars().collect();
+    let mut pattern = String::new();
+    let mut i = 0;
+    while i < chars.len() {
+        match chars[i] {
+            '*' if chars.get(i + 1) == Some(&'*') && chars.get(i + 2) == Some(&'/') => {
+                pattern.push_str("(?:.*/)?");
+                i += 2;
             }
-            .to_string()
-        })
-        .to_string();
-
-    while pattern.starts_with("/") || pattern.starts_with("\\") {
-        pattern.remove(0);
+            '*' if chars.get(i + 1) == Some(&'*') => {
+                pattern.push_str(".*");
+                i += 1;
+            }
+            '*' => pattern.push_str("[^/]*"),
+            '?' => pattern.push_str("[^/]"),
+            c => pattern.push_str(&regex::escape(&c.to_string())),
+        }
+        i += 1;
     }
 
     #[cfg(windows)]
@@ -173,7 +167,7 @@ fn convert_dockerignore_glob(glob: &str, file_path: &Path) -> Result<Regex, Erro
     #[cfg(not(windows))]
     let path = file_path.to_string_lossy().to_string();
 
-    pattern = path.replace("\\", "\\\\").add("/([^/]+/)*").add(&pattern);
+    let pattern = format!("^{}/{}(?:/.*)?$", regex::escape(&path), pattern);
 
     Regex::new(&pattern)
 }
